@@ -185,6 +185,44 @@ def build_reference(targets):
     return dst if rc == 0 else None
 
 
+def gen_deps(targets):
+    """the generated files (Gen/X.v) the given .vo targets depend on, from coq_makefile's dependency file"""
+    deps = {}
+    try:
+        for line in open(os.path.join(COQ, ".Makefile.d")):
+            if ".vo " not in line or ":" not in line:
+                continue
+            lhs, rhs = line.split(":", 1)
+            head = lhs.split()[0]
+            if head.endswith(".vo"):
+                deps[head] = [d for d in rhs.split() if d.endswith(".vo")]
+    except OSError:
+        return None
+    seen, todo = set(), list(targets)
+    while todo:
+        t = todo.pop()
+        if t in seen:
+            continue
+        seen.add(t)
+        todo += deps.get(t, [])
+    return {t[len("Gen/"):-3] + ".v" for t in seen if t.startswith("Gen/")}
+
+
+def translator_failures_for(targets):
+    """[(generator, message)] of the failed generators whose files the targets depend on (all of them when unknown)"""
+    try:
+        st = json.load(open(os.path.join(COQ, "Gen", ".status.json")))
+    except (OSError, ValueError):
+        return None
+    needed = gen_deps(targets)
+    out = []
+    for g, msg in st.get("errors", {}).items():
+        owned = st.get("owners", {}).get(g)
+        if needed is None or not owned or needed & set(owned):
+            out.append((g, msg))
+    return out
+
+
 def enclosing_statement(path, line):
     try:
         lines = open(path).read().split("\n")
@@ -335,8 +373,6 @@ def check(prop, tier, seed, replay=None, only_suite=None, ncases=None):
     with BuildLock():
         ok, tout = translate()
         info["translate"] = tout[-300:]
-        if not ok:
-            tie_broken.append(("translator", tout[-400:]))
         ensure_makefile()
         model_targets = [t[:-2] + ".vo" for t in getattr(mod, "MODEL_FILES", [])]
         props_target = mod.PROPS_FILE[:-2] + ".vo"
@@ -344,6 +380,15 @@ def check(prop, tier, seed, replay=None, only_suite=None, ncases=None):
         if model_targets:
             mok, mfail, mlog = make_targets(model_targets)
         pok, pfail, plog = make_targets([props_target])
+        if not ok:
+            # only the generators this property's theorems and models depend on count for it
+            mine = translator_failures_for(model_targets + [props_target])
+            if mine is None:
+                tie_broken.append(("translator", tout[-400:]))
+            else:
+                for g, msg in mine:
+                    tie_broken.append(("translator", f"{g}: {msg}"[:400]))
+                ok = bool(mine) is False
     for f in pfail:
         tie_broken.append(("proof", f"{f['file']}:{f['line']} {f['statement']}: {f['error']}"))
     if not mok and not pfail:
